@@ -68,6 +68,9 @@ def call_roles(call: ast.Call, func: FuncInfo):
 
 
 def check(ctx):
+    from .c10 import shared_no_stale
+
+    shared_no_stale(ctx, "C02.g BINDING", [("skchange.change_detectors", "PELT")])
     cls = ctx.P.public_class("skchange.change_detectors", "PELT")
     pred = ctx.P.lookup_method(cls, "_predict")
     cands = find_driver_call(ctx, pred)
